@@ -7,7 +7,10 @@ op: (i) every object the op does not name equals its shadow bit for bit, (ii) th
 shadow updated by the model (assignments exactly, conversions = the same conversion of a pristine rebuild),
 (iii) the receiver of copy / as_orbit / as_statevector / pickle is untouched, (iv) a failing op raises the
 documented exception and leaves the object as it was and convertible, (v) name / alias / index access agree,
-(vi) pickle / as_orbit / as_statevector preserve everything.  All discrepancies of a history are collected
+(vi) pickle / as_orbit / as_statevector preserve everything, (vii) a copy behaves like its source: right after
+every maker op, and again at the end for pairs nobody modified, the same covariance conversions (QSW, TNW,
+EME2000) applied to deep throw-away twins (pickle round trips) of source and copy give the same numbers;
+cov.copy(frame) agrees with the in-place cov.frame = frame.  All discrepancies of a history are collected
 under root-cause kinds; the first one that is not a listed known finding is raised.
 
 Development aid: VERIF_C15_ASSUME=all (or a comma separated list of FINDINGS keys) activates the predicates
@@ -27,8 +30,9 @@ from ..gen import sv_histories as H
 from ..oracles import sv_shadow as S
 
 RULE = ("Histories of 2..6 operations (copy with/without form/frame/same, in-place form/frame change, coordinate "
-        "assignment by index/name/alias, metadata / maneuver / covariance edits, refused operations, pickle, "
-        "as_orbit, as_statevector) on a pool of 1..6 generated StateVector/Orbit objects.")
+        "assignment by index/name/alias, metadata / maneuver / covariance edits incl. cov.frame and cov.copy, refused "
+        "operations, pickle, as_orbit, as_statevector) on a pool of 1..6 generated StateVector/Orbit objects; one "
+        "history in four starts with a covariance moved in place to a rotating frame and then copied.")
 ASSUMPTIONS = [
     "shadow model: vf/oracles/sv_shadow.py; form and frame are compared by name, the date by (day, seconds, scale)",
     "expected result of a conversion = the same conversion applied to a pristine object rebuilt from the shadow "
@@ -40,6 +44,8 @@ ASSUMPTIONS = [
     "parameter names and aliases are those of the forms' documentation",
     "orbits are low (perigee 1.03-1.8 Re, e <= 0.3) so that every form is defined in every frame incl. rotating ones",
     "the 'infos' cache key is ignored",
+    "behavioural equality of a copy and its source: covariance conversions on pickle twins, each term compared in "
+    "units of its own sigmas (1e-9); conversions that involve an unpickled (cloned) Frame are allowed 1e-10",
 ]
 LEVEL_TEXT = ("Model-based generation of operation histories (drawn by Hypothesis, interpreted on a pool of shared "
               "objects, shadow model consulted after every step). Exploration only.")
@@ -111,6 +117,8 @@ def build(spec):
         o.maneuvers = [mkman(m, spec["date"]) for m in spec["mans"]]
     if spec["cov"]:
         o.cov = Cov(o, cov_values(spec["cov"]), spec["cov"]["frame"] or o.frame)
+    if spec.get("touch"):
+        o.maneuvers, o.cov  # noqa: B018 - the getters insert their default ([] / None) into _data
     return o
 
 
